@@ -357,8 +357,67 @@ def run(chk, replay=None):
         else:
             chk.count('oracle', 'decomposition-agrees')
 
+    # ---- noise: same identifier adds in amplitude, distinct identifiers add in power
+    from lcapy import omega as om
+    nnoise = 10 if quick else 100
+    for k in range(nnoise):
+        nsrc = rng.randint(2, 3)
+        ids = [rng.choice(['nx', 'ny']) if rng.random() < 0.6 else None for _ in range(nsrc)]
+        amps = [Fraction(rng.randint(1, 6), rng.randint(1, 3)) for _ in range(nsrc)]
+        r1, r2, r3, c1 = (gen_netlist.fs(Fraction(rng.randint(1, 6), rng.randint(1, 3))) for _ in range(4))
+        # a fixed two-loop RC skeleton; noise sources in series with its branches / across its nodes
+        places = [('V', '1', '0'), ('V', '3', '2'), ('I', '0', '3')][:nsrc]
+        if rng.random() < 0.5:
+            places = [(ty, b, a) for (ty, a, b) in places]
+        lines = ['R1 1 2 %s' % r1, 'C1 2 0 %s' % c1, 'R2 3 0 %s' % r2, 'R3 2 4 %s' % r3, 'R4 4 0 1']
+        names = []
+        for i_, ((ty, a, b), nid, amp) in enumerate(zip(places, ids, amps)):
+            nm = '%sn%d' % (ty, i_ + 1)
+            names.append(nm)
+            lines.append('%s %s %s noise %s%s' % (nm, a, b, gen_netlist.fs(amp), (' ' + nid) if nid else ''))
+        w = Fraction(rng.randint(1, 9), rng.randint(1, 4))
+        chk.case(('noise', tuple(lines), w), True)
+        chk.count('noise', 'ids:' + ','.join(x or 'auto' for x in ids))
+        try:
+            with common.time_limit(60):
+                cct = lcapy.Circuit('\n'.join(lines))
+                node = rng.choice(['2', '3', '4'])
+                n2 = cct[node].V.n.sympy ** 2
+                W = R(w)
+                got = common.gauss_rational(S.simplify(n2.subs(om.sympy, W)))
+                # transfer functions by a separate Laplace-domain analysis: source k -> unit s-domain source, others killed
+                H = []
+                for nm in names:
+                    l2 = []
+                    for ll in lines:
+                        tk = ll.split()
+                        if tk[0] == nm:
+                            l2.append('%s %s %s s 1' % (tk[0], tk[1], tk[2]))
+                        elif tk[0] in names:
+                            l2.append('%s %s %s' % ('W' if tk[0][0] == 'V' else 'O', tk[1], tk[2]))
+                        else:
+                            l2.append(ll)
+                    hs = lcapy.Circuit('\n'.join(l2))[node].V(ss).sympy
+                    H.append(common.gauss_rational(hs.subs(ss.sympy, S.I * W)))
+        except (Exception, common.TimeLimit) as e:   # noqa
+            chk.count('lcapy-error', 'noise:' + type(e).__name__)
+            continue
+        if got is None or any(h is None for h in H):
+            chk.count('lcapy', 'noise-non-rational')
+            continue
+        groups = {}
+        for i_, (nid, amp, h) in enumerate(zip(ids, amps, H)):
+            groups.setdefault(nid or ('auto%d' % i_), []).append('%s:%s:%s' % (fstr(h[0]), fstr(h[1]), fstr(amp)))
+        want = Fraction(drv.ask1('noise.power ' + ' | '.join(' '.join(g) for g in groups.values())))
+        chk.count('oracle', 'noise-power-checked')
+        if got[0] != want or got[1] != 0:
+            n_cex += 1
+            chk.counterexample({'kind': 'noise-power', 'shared_ids': len(groups) < nsrc},
+                               {'input': {'netlist': lines, 'node': node, 'omega': fstr(w)},
+                                'lcapy': {'n^2': str(got)}, 'spec': 'sum over identifiers of |sum_k H_k(jw) a_k|^2 = %s' % want},
+                               'noise contributions are not combined as power across identifiers / amplitude within an identifier')
+
     chk.coverage['correspondence']['samples_of_disagreement'] = disagreements[:5]
-    chk.assumptions.append('noise superposition (power addition across noise identifiers) is not exercised by this check')
     if broken and n_cex == 0:
         for b in broken[:20]:
             chk.unexplained('broken-obligation', b, chk.coverage.get('build_log_tail', '')[-600:])
